@@ -38,7 +38,10 @@ REGISTRATION = {
             "one more -race process issues concurrent /api/pull requests for the same model (two tags sharing their blobs) against an "
             "in-memory registry + CDN, with ps / tags / delete alongside (transfer manager, blobDownload, parts). The translator's "
             "lockset claims themselves are cross-checked at run time: the hammer also runs on a build where every claimed mutex is "
-            "TryLock'ed in front of the statement containing the access (about 100 sites; a success refutes the claim).",
+            "TryLock'ed in front of the statement containing the access (about 100 sites; a success refutes the claim). Lock order: the "
+            "translator lists every site that takes a tracked mutex while holding another one (call-graph resolved); Lean checks by "
+            "`decide` that the regenerated relation has a rank function and a general theorem turns that into: no wait cycle among "
+            "blocked acquisitions (no AB-BA deadlock); witness for the order the pinned scheduler had (F12c).",
     "design_ref": "DESIGN.md §5 C15",
     "note": COMMON_NOTE + "Partial by nature: the theorem is about lock-granularity traces and takes the non-lock "
             "orderings as named hypotheses (atomics/sync.Map, close(done), two accesses before the same "
@@ -70,6 +73,10 @@ THEOREMS = [
     "OllamaVerif.Lockset.validAt_not_cleared",
     "OllamaVerif.Lockset.stale_rule_sound",
     "OllamaVerif.Lockset.no_nil_deref_panic",
+    "OllamaVerif.Lockset.no_wait_cycle",
+    "OllamaVerif.Lockset.ranked_lock_order_no_deadlock",
+    "OllamaVerif.Lockset.abba_deadlock_witness",
+    "OllamaVerif.Lockset.rw_writer_excludes_readers",
     "OllamaVerif.Lockset.desc_after_fork",
     "OllamaVerif.Lockset.fork_tagged_pair_ordered",
     "OllamaVerif.Lockset.lockset_discipline_race_free_fork",
@@ -85,6 +92,9 @@ THEOREMS = [
     "OllamaVerif.Tie.C15.race_free_good_classes_fork",
     "OllamaVerif.Tie.C15.race_free_good_classes_ordered",
     "OllamaVerif.Tie.C15.registry_entries_are_open",
+    "OllamaVerif.Tie.C15.lock_order_ranked",
+    "OllamaVerif.Tie.C15.lock_order_acyclic",
+    "OllamaVerif.Tie.C15.no_deadlock_among_tracked_mutexes",
     "OllamaVerif.Tie.C15.stale_exact",
     "OllamaVerif.Tie.C15.no_stale_reads",
     "OllamaVerif.Tie.C15.no_use_of_torn_down_runner",
@@ -222,6 +232,16 @@ def static_failures(facts):
             return f"{f['site']}[{f['kind']} locks={','.join(f['locks']) or '-'} @{f['thread']}]"
         out.append({"kind": "lockset", "case": case, "detail": f"no common lock / ordering: {show(a)} vs {show(b)}"})
     return out
+
+
+def lock_order_failures(facts):
+    """a cycle in the "acquires B while holding A" relation of the tracked mutexes: two sites that take the same two mutex
+    classes in opposite orders (AB-BA deadlock), or a site that takes a second mutex of the class it already holds"""
+    return [{"kind": "lock-order", "case": c,
+             "detail": f"mutex classes {c.split('|')[0]} and {c.split('|')[1]} are taken in opposite orders: {c.split('|')[2]} takes the second "
+                       f"while holding the first, {c.split('|')[3] or '?'} closes the cycle: two requests can block each other for ever "
+                       f"(every later request that needs either mutex, /api/ps included, hangs)"}
+            for c in (facts.get("lock_cycles") or [])]
 
 
 def stale_failures(facts):
@@ -480,6 +500,13 @@ def run(ctx):
     ctx.classify(st, matcher)
     sf = stale_failures(facts)
     ctx.classify(sf, matcher)
+    lo = lock_order_failures(facts)
+    ctx.classify(lo, matcher)
+    ctx.stats["static_lock_order_sites"] = len(facts.get("lock_order") or [])
+    ctx.stats["static_lock_order_cycles"] = len(lo)
+    ctx.coverage["lock_order"] = [f"{e['from']} -> {e['to']} at {e['site']}" + (" (fresh object)" if e["fresh"] else "")
+                                  for e in (facts.get("lock_order") or [])]
+    ctx.coverage["lock_rank"] = dict(zip(facts.get("lock_refs") or [], facts.get("lock_rank") or []))
     ctx.stats["static_stale_pointer_reads"] = len(sf)
     ctx.stats["static_reads_of_cleared_fields"] = sum(1 for f in facts["facts"]
                                                       if f["kind"] == "read" and f["cls"] in (facts.get("cleared_classes") or []))
